@@ -34,6 +34,7 @@ struct State {
     clock: Vec<u64>,
     clock_idx: usize,
     spurious_cas: bool,
+    rand_bits: Option<u8>,
     addr_names: Vec<usize>,
     switches: u64,
 }
@@ -55,6 +56,8 @@ pub struct E2Opts {
     pub clock: Vec<u64>,
     pub spurious_cas: bool,
     pub max_steps: u64,
+    /// shrink overridden random byte strings to this many bits of entropy
+    pub rand_bits: Option<u8>,
 }
 
 impl Default for E2Opts {
@@ -63,6 +66,7 @@ impl Default for E2Opts {
             clock: vec![],
             spurious_cas: false,
             max_steps: 100_000,
+            rand_bits: None,
         }
     }
 }
@@ -205,6 +209,19 @@ impl Hook for Sched {
         Some(v)
     }
 
+    fn rand_override(&self, _site: &'static str, buf: &mut [u8]) {
+        let mut g = self.st.lock().unwrap();
+        if let Some(bits) = g.rand_bits {
+            let v = g.rng.below(1u64 << bits);
+            for b in buf.iter_mut() {
+                *b = 0;
+            }
+            if let Some(last) = buf.last_mut() {
+                *last = v as u8;
+            }
+        }
+    }
+
     fn sync_active(&self) -> bool {
         Self::me() != usize::MAX
     }
@@ -276,6 +293,7 @@ pub fn run_threads(seed: u64, ctx: &Ctx, bodies: Vec<Body>, opts: E2Opts) -> E2R
             clock: opts.clock,
             clock_idx: 0,
             spurious_cas: opts.spurious_cas,
+            rand_bits: opts.rand_bits,
             addr_names: vec![],
             switches: 0,
         }),
